@@ -42,12 +42,12 @@ Qed.
 Section InsertFail.
 Variables (n : string) (cols : list string).
 
-Lemma st_insert_err_rep s d vals s' e :
-  Rep s d -> st_insert s n cols vals = (s', Err e) -> Rep s' d.
+Lemma st_insert0_err_rep s d vals s' e :
+  Rep s d -> st_insert0 s n cols vals = (s', Err e) -> Rep s' d.
 Proof.
   intros HR Hst. pose proof HR as [Hinv Hok (pt & sc & ents & osc & HC)].
-  pose proof (st_insert_inv s n cols vals Hinv) as Hinv'. rewrite Hst in Hinv'. cbn [fst] in Hinv'.
-  unfold st_insert in Hst. rewrite is_sys_table_is_sys in Hst.
+  pose proof (st_insert0_inv s n cols vals Hinv) as Hinv'. rewrite Hst in Hinv'. cbn [fst] in Hinv'.
+  unfold st_insert0 in Hst. rewrite is_sys_table_is_sys in Hst.
   destruct (is_sys n) eqn:Hsys; [inversion Hst; subst; exact HR|].
   destruct (find_tbl n d) as [t|] eqn:Hf.
   2:{ rewrite (cat_rel_offset_none s d pt sc ents osc Hinv HC n Hsys Hf) in Hst. cbn [bind] in Hst. inversion Hst; subst. exact HR. }
@@ -79,6 +79,13 @@ Proof.
     eapply Rep_same_pages; eauto.
 Qed.
 
+Lemma st_insert_err_rep s d vals s' e :
+  Rep s d -> st_insert s n cols vals = (s', Err e) -> Rep s' d.
+Proof.
+  intros HR Hst. unfold st_insert in Hst. destruct (ins_bad_cols s n cols vals); [inversion Hst; subst; exact HR|].
+  eapply st_insert0_err_rep; eauto.
+Qed.
+
 Lemma insert_rows_err_rep rows : forall s d t b k s' b' e,
   Rep s d -> is_sys n = false -> find_tbl n d = Some t -> Forall (Forall val_okP) rows ->
   nextFree s' <= OFFMAX ->
@@ -92,12 +99,12 @@ Proof.
     destruct (st_insert s n cols vals) as [s1 [ws|e1|]] eqn:Est; try (inversion Hrun; fail).
     + assert (Hmax1 : nextFree s1 <= OFFMAX).
       { pose proof (insert_rows_free_mono rest s1 n cols (b ++ ws) (S k)) as X. rewrite Hrun in X. cbn [fst] in X. lia. }
-      destruct (st_insert_rep n cols s d t vals s1 ws HR Hsys Hf Hv Hmax1 Est) as (Hlen & Hchk & HR1).
+      destruct (st_insert_rep n cols s d t vals s1 ws HR Hsys Hf Hv Hmax1 Est) as (Hlen & Hce & Hchk & HR1).
       match type of HR1 with Rep _ (set_rows _ ?rows _) => pose proof (find_tbl_set_rows n rows d t Hf) as Hf1 end.
       destruct (IH s1 _ _ (b ++ ws) (S k) s' b' e HR1 Hsys Hf1 Hvr Hmax Hrun) as (i & new & Hi & Hnew & HR').
       cbn [tb_schema tb_rows] in Hnew, HR'. rewrite set_rows_set_rows, <- app_assoc in HR'. cbn [app] in HR'.
       exists (S i). eexists. split; [cbn [List.length]; lia|]. split; [|exact HR'].
-      cbn [firstn insert_all]. rewrite Hlen. cbn [negb]. rewrite Hchk, Hnew. reflexivity.
+      cbn [firstn insert_all]. rewrite Hlen. cbn [negb]. rewrite Hce, Hchk, Hnew. reflexivity.
     + inversion Hrun; subst s1 b' e1. exists O, []. split; [cbn; lia|]. split; [reflexivity|].
       rewrite app_nil_r, (set_rows_self n d t Hf). eapply st_insert_err_rep; eauto.
 Qed.
@@ -482,7 +489,7 @@ Proof.
     destruct (is_sys n) eqn:Hsys; [|destruct (find_tbl n d) as [t|] eqn:Hf].
     + destruct rows as [|r rest]; [cbn in Er; inversion Er|].
       cbn [insert_rows] in Er. destruct (st_insert s n cols r) as [s2 [ws|e2|]] eqn:Est.
-      * exfalso. unfold st_insert in Est. rewrite is_sys_table_is_sys, Hsys in Est. inversion Est.
+      * exfalso. unfold st_insert, ins_bad_cols, st_insert0 in Est. rewrite is_sys_table_is_sys, Hsys in Est. inversion Est.
       * inversion Er; subst. exists d. split; [left; reflexivity | eapply st_insert_err_rep; eauto].
       * inversion Er.
     + destruct (insert_rows_err_rep n cols rows s d t [] 0%nat s1 b e HR Hsys Hf Hvals Hmax Er) as (i & new & Hi & Hnew & HR1).
@@ -491,7 +498,7 @@ Proof.
       cbn [spec_exec]. rewrite Hf, Hnew. left. reflexivity.
     + destruct rows as [|r rest]; [cbn in Er; inversion Er|].
       cbn [insert_rows] in Er. destruct (st_insert s n cols r) as [s2 [ws|e2|]] eqn:Est.
-      * exfalso. unfold st_insert in Est. rewrite is_sys_table_is_sys, Hsys in Est.
+      * exfalso. unfold st_insert, ins_bad_cols, st_insert0 in Est. rewrite is_sys_table_is_sys, Hsys in Est.
         destruct HR as [Hinv Hok (pt & sc & ents & osc & HC)].
         rewrite (cat_rel_offset_none s d pt sc ents osc Hinv HC n Hsys Hf) in Est. cbn [bind] in Est. inversion Est.
       * inversion Er; subst. exists d. split; [left; reflexivity | eapply st_insert_err_rep; eauto].
@@ -506,7 +513,7 @@ Proof.
     destruct (update_rows s n (map fst sets) (set_vals sets) ids []) as [[s1 b] o1] eqn:Eu. cbn [e_store e_out] in *. subst o1.
     destruct (is_sys n) eqn:Hsys.
     { destruct ids as [|k rest]; [cbn in Eu; inversion Eu|].
-      cbn [update_rows] in Eu. unfold st_update in Eu. rewrite is_sys_table_is_sys, Hsys in Eu. inversion Eu; subst.
+      cbn [update_rows] in Eu. unfold st_update, upd_bad_cols, st_update0 in Eu. rewrite is_sys_table_is_sys, Hsys in Eu. inversion Eu; subst.
       exists d. split; [left; reflexivity | exact HR]. }
     destruct (find_tbl n d) as [t|] eqn:Hf.
     2:{ exfalso. unfold where_ids in Ew. rewrite (st_fetch_missing s d n HR Hsys Hf) in Ew. discriminate. }
